@@ -342,3 +342,225 @@ Proof.
       rewrite !andb_false_r. reflexivity.
   - destruct (Hopen eq_refl eq_refl) as [_ Hn]. rewrite Hn. reflexivity.
 Qed.
+
+Lemma last_rev_cons : forall b r, last_rev (b :: r) = match b_rev b with Some n => n | None => last_rev r end.
+Proof. reflexivity. Qed.
+
+Lemma proof_cons : forall b r, proof_on (b :: r) = b_proof b || proof_on r.
+Proof. reflexivity. Qed.
+Lemma missed_cons : forall b r, missed_on (b :: r) = b_missed b || missed_on r.
+Proof. reflexivity. Qed.
+
+Ltac row_fields :=
+  cbn [set_status set_conf_rev c1_contract_id c1_formation_confirmed c1_contract_status
+       c1_revision_number c1_confirmed_revision_number c1_resolution_height
+       c1_negotiation_height c1_window_start c1_window_end c1_proof_benefit] in *.
+
+(* applying a block keeps the row in agreement with the chain, and never panics *)
+Lemma apply_block_matches : forall p ch b c,
+  chain_ok p (b :: ch) -> row_matches p ch c ->
+  exists c', apply_block p (tip (b :: ch)) b c = Ok c' /\ row_matches p (b :: ch) c'.
+Proof.
+  intros p ch b c Hok Hm.
+  cbn [chain_ok] in Hok. destruct Hok as [Hr [Hform [Hproof [Hmiss Hdead]]]].
+  destruct Hm as [Hf [Hws [Hwe [Hben [Hneg [Hcr [Hun [Hopen [Hpr Hmi]]]]]]]]].
+  destruct c as [cid cformed cst crev cconf cres cneg cws cwe cben]. row_fields. subst.
+  destruct b as [bf br bp bm]. cbn [b_form b_rev b_proof b_missed] in *.
+  unfold row_matches, apply_block, when.
+  rewrite formed_cons, resolved_cons, proof_cons, missed_cons, last_rev_cons.
+  cbn [b_form b_rev b_proof b_missed].
+  assert (Hresform : resolved_on ch = true -> formed_on ch = true) by (apply (resolved_formed p); exact Hr).
+  assert (Hpm : proof_on ch = true -> missed_on ch = true -> False).
+  { intros Hp Hm'. clear - Hr Hp Hm'. induction ch as [|b r IH]; [discriminate|].
+    cbn [chain_ok] in Hr. destruct Hr as [Hr' [_ [Hpf [Hmf _]]]].
+    rewrite proof_cons in Hp. rewrite missed_cons in Hm'.
+    destruct (b_proof b) eqn:Ep.
+    - destruct (Hpf eq_refl) as [_ [Hres Hbm]]. rewrite Hbm in Hm'. cbn [orb] in Hm'.
+      unfold resolved_on in Hres. rewrite Hm' in Hres. rewrite orb_true_r in Hres. discriminate.
+    - cbn [orb] in Hp. destruct (b_missed b) eqn:Em.
+      + destruct (Hmf eq_refl) as [_ [Hres _]]. unfold resolved_on in Hres. rewrite Hp in Hres. discriminate.
+      + cbn [orb] in Hm'. exact (IH Hr' Hp Hm'). }
+  unfold resolved_on in *.
+  destruct (formed_on ch) eqn:Ef; destruct (proof_on ch) eqn:Ep; destruct (missed_on ch) eqn:Emi;
+    cbn [orb andb negb] in *;
+    try (exfalso; apply Hpm; reflexivity);
+    try (specialize (Hresform eq_refl); discriminate).
+  all: destruct bf, bp, bm; cbn [orb andb negb] in *.
+  all: try (destruct (Hform eq_refl) as [Hx1 Hx2]; try discriminate Hx1).
+  all: try (destruct (Hproof eq_refl) as [Hy1 [Hy2 Hy3]]; try discriminate Hy1; try discriminate Hy2; try discriminate Hy3).
+  all: try (destruct (Hmiss eq_refl) as [Hz1 [Hz2 [Hz3 Hz4]]]; try discriminate Hz1; try discriminate Hz2).
+  all: try (destruct (Hun eq_refl) as [Hs Hres0]; rewrite Hres0 in *).
+  all: try (destruct (Hopen eq_refl eq_refl) as [Hs Hres0]; rewrite Hs, Hres0 in *).
+  all: try (destruct (Hpr eq_refl eq_refl) as [Hs Hres0]; rewrite Hs in *).
+  all: try (specialize (Hmi eq_refl eq_refl)).
+  all: destruct (p_benefit p) eqn:Eb; try (destruct Hmi as [Hs Hres0]; rewrite Hs in *).
+  all: try (destruct Hs as [Hs|Hs]; rewrite Hs in *).
+  all: cbn [orb andb negb apply_form apply_success apply_failed bind set_status c1_contract_status
+            c1_formation_confirmed c1_resolution_height].
+  all: destruct br as [n|]; row_fields.
+  all: unfold reject; row_fields; cbn [st1_eqb negb andb].
+  all: repeat match goal with |- context [if ?x then _ else _] => destruct x eqn:? end.
+  all: row_fields; eexists; (split; [reflexivity|]); row_fields.
+  all: repeat split; try reflexivity; try discriminate; try (intros; discriminate); auto.
+Qed.
+
+(* reverting the tip block (not the formation) restores agreement with the shorter chain *)
+Lemma revert_block_matches : forall p ch b c,
+  chain_ok p (b :: ch) -> b_form b = false -> row_matches p (b :: ch) c ->
+  exists c', revert_block p b (last_rev ch) c = Ok c' /\ row_matches p ch c'.
+Proof.
+  intros p ch b c Hok Hbf Hm.
+  cbn [chain_ok] in Hok. destruct Hok as [Hr [Hform [Hproof [Hmiss Hdead]]]].
+  destruct Hm as [Hf [Hws [Hwe [Hben [Hneg [Hcr [Hun [Hopen [Hpr Hmi]]]]]]]]].
+  destruct c as [cid cformed cst crev cconf cres cneg cws cwe cben]. row_fields. subst.
+  destruct b as [bf br bp bm]. cbn [b_form b_rev b_proof b_missed] in *. subst bf.
+  unfold row_matches, revert_block, when.
+  rewrite formed_cons, resolved_cons, proof_cons, missed_cons, last_rev_cons in *.
+  cbn [b_form b_rev b_proof b_missed] in *.
+  unfold resolved_on in *.
+  destruct (formed_on ch) eqn:Ef; destruct (proof_on ch) eqn:Ep; destruct (missed_on ch) eqn:Emi;
+    cbn [orb andb negb] in *.
+  all: destruct bp, bm; cbn [orb andb negb] in *.
+  all: try (destruct (Hproof eq_refl) as [Hy1 [Hy2 Hy3]]; try discriminate Hy1; try discriminate Hy2; try discriminate Hy3).
+  all: try (destruct (Hmiss eq_refl) as [Hz1 [Hz2 [Hz3 Hz4]]]; try discriminate Hz1; try discriminate Hz2).
+  all: try (destruct (Hun eq_refl) as [Hs Hres0]; rewrite Hres0 in *).
+  all: try (destruct (Hopen eq_refl eq_refl) as [Hs Hres0]; rewrite Hs, Hres0 in *).
+  all: try (destruct (Hpr eq_refl eq_refl) as [Hs Hres0]; rewrite Hs in *).
+  all: try (specialize (Hmi eq_refl eq_refl)).
+  all: destruct (p_benefit p) eqn:Eb; try (destruct Hmi as [Hs Hres0]; rewrite Hs in *).
+  all: try (destruct Hs as [Hs|Hs]; rewrite Hs in *).
+  all: cbn [orb andb negb revert_form revert_success revert_failed bind set_status c1_contract_status
+            c1_formation_confirmed c1_resolution_height].
+  all: destruct br as [n|]; row_fields.
+  all: row_fields; eexists; (split; [reflexivity|]); row_fields.
+  all: repeat split; try reflexivity; try discriminate; try (intros; discriminate); auto.
+  all: try (destruct Hmi as [X _]; discriminate X).
+Qed.
+
+(** * The simulation invariant *)
+Definition inv (p : params) (w : world) : Prop :=
+  chain_ok p (chain w) /\
+  (exists c, row w = Ok c /\ row_matches p (chain w) c) /\
+  sent w = sent_of p (chain w).
+
+Lemma inv_init : forall p, inv p (init_world p).
+Proof.
+  intros p. unfold inv, init_world. cbn [chain row sent chain_ok sent_of]. split; [exact I|]. split; [|reflexivity].
+  exists (init_row p). split; [reflexivity|].
+  unfold row_matches, init_row. row_fields. cbn [formed_on resolved_on proof_on missed_on existsb last_rev orb].
+  repeat split; try reflexivity; try discriminate; auto.
+Qed.
+
+Lemma env_ok_chain : forall p w b,
+  sent w = sent_of p (chain w) -> chain_ok p (chain w) -> env_ok p w b = true -> chain_ok p (b :: chain w).
+Proof.
+  intros p w b Hs Hok He. unfold env_ok in He. rewrite Hs in He.
+  cbn [chain_ok]. rewrite tip_cons.
+  destruct (b_form b), (b_proof b), (b_missed b), (formed_on (chain w)), (resolved_on (chain w)),
+    (existsb (fun x => x) (sent_of p (chain w)));
+    cbn [implb andb orb negb] in He; try discriminate He;
+    repeat split; try assumption; try reflexivity; try (intros; discriminate); try (intros; lia);
+    try (intros; auto; fail).
+  all: try (intros; first [left; reflexivity | right; reflexivity]).
+  all: try (intro Heq; intros; exfalso; rewrite <- N.eqb_eq in Heq; rewrite Heq in He; cbn in He;
+            repeat rewrite ?andb_false_r, ?andb_true_r in He; discriminate He).
+Qed.
+
+Lemma step_inv : forall p w e w', inv p w -> step p w e = Some w' -> inv p w'.
+Proof.
+  intros p w e w' [Hok [[c [Hrow Hm]] Hs]] Hstep. destruct e as [b|].
+  - (* Mine *)
+    cbn [step] in Hstep. destruct (env_ok p w b) eqn:He; cbn [negb] in Hstep; [|discriminate].
+    injection Hstep as <-.
+    pose proof (env_ok_chain p w b Hs Hok He) as Hok'.
+    destruct (apply_block_matches p (chain w) b c Hok' Hm) as [c' [Hap Hm']].
+    rewrite tip_cons in Hap.
+    unfold inv. cbn [chain row sent]. rewrite Hrow. cbn [bind]. rewrite Hap.
+    split; [exact Hok'|]. split; [exists c'; split; [reflexivity|exact Hm']|].
+    cbn [sent_of]. rewrite Hs. f_equal.
+    rewrite <- tip_cons. apply broadcast_agrees; assumption.
+  - (* Revert *)
+    cbn [step] in Hstep. destruct (chain w) as [|b rest] eqn:Ech; [discriminate|].
+    destruct (sent w) as [|s0 srest] eqn:Es; [discriminate|].
+    destruct (b_form b) eqn:Ebf; [discriminate|]. injection Hstep as <-.
+    destruct (revert_block_matches p rest b c Hok Ebf Hm) as [c' [Hrv Hm']].
+    cbn [chain_ok] in Hok. destruct Hok as [Hok' _].
+    unfold inv. cbn [chain row sent]. rewrite Hrow. cbn [bind]. rewrite Hrv.
+    split; [exact Hok'|]. split; [exists c'; split; [reflexivity|exact Hm']|].
+    cbn [sent_of] in Hs. injection Hs as _ Hs. subst srest.
+    destruct rest as [|b2 r2]; [reflexivity|].
+    cbn [sent_of]. f_equal.
+    rewrite (broadcast_agrees p (b2 :: r2) c' Hok' Hm'). apply orb_diag.
+Qed.
+
+Lemma run_inv : forall p tr w w', inv p w -> run p w tr = Some w' -> inv p w'.
+Proof.
+  intros p tr. induction tr as [|e t IH]; intros w w' Hi Hr.
+  - injection Hr as <-. exact Hi.
+  - cbn [run] in Hr. destruct (step p w e) as [w1|] eqn:Est; [|discriminate].
+    apply (IH w1 w'); [eapply step_inv; eassumption|exact Hr].
+Qed.
+
+(* C06, last sentence, v1: for every schedule meeting the hypotheses of [env_ok] and every
+   point of it, the host has not crashed, the contract is not failed, and once the chain
+   has reached window_end with the formation on it the contract is successful. *)
+Theorem v1_ends_successful : forall p tr w,
+  (p_ws p < p_we p)%N -> p_held p = true ->
+  run p (init_world p) tr = Some w ->
+  exists c, row w = Ok c /\
+            c1_contract_status c <> Failed1 /\
+            (formed_on (chain w) = true -> (p_we p <= tip (chain w))%N ->
+             c1_contract_status c = Successful1).
+Proof.
+  intros p tr w Hw Hh Hrun.
+  destruct (run_inv p tr _ w (inv_init p) Hrun) as [Hok [[c [Hrow Hm]] _]].
+  exists c. split; [exact Hrow|].
+  destruct Hm as [_ [_ [_ [_ [_ [_ [Hun [Hopen [Hpr Hmi]]]]]]]]].
+  assert (Hnm : p_benefit p = true -> missed_on (chain w) = false)
+    by (intro Hb; apply (never_missed p); assumption).
+  split.
+  - intro Hfail. destruct (formed_on (chain w)) eqn:Ef.
+    + destruct (resolved_on (chain w)) eqn:Er.
+      * unfold resolved_on in Er. destruct (proof_on (chain w)) eqn:Ep.
+        -- destruct (Hpr eq_refl eq_refl) as [Hs _]. congruence.
+        -- cbn [orb] in Er. specialize (Hmi eq_refl Er). destruct (p_benefit p) eqn:Eb.
+           ++ rewrite (Hnm eq_refl) in Er. discriminate.
+           ++ destruct Hmi as [Hs _]. congruence.
+      * destruct (Hopen eq_refl eq_refl) as [Hs _]. congruence.
+    + destruct (Hun eq_refl) as [[Hs|Hs] _]; congruence.
+  - intros Hf Hle. pose proof (resolved_after_window p (chain w) Hw Hok Hf Hle) as Hres.
+    unfold resolved_on in Hres. destruct (proof_on (chain w)) eqn:Ep.
+    + destruct (Hpr Hf eq_refl) as [Hs _]. exact Hs.
+    + cbn [orb] in Hres. specialize (Hmi Hf Hres). destruct (p_benefit p) eqn:Eb.
+      * rewrite (Hnm eq_refl) in Hres. discriminate.
+      * destruct Hmi as [Hs _]. exact Hs.
+Qed.
+
+(* the host does its part: whenever it processes a tip inside the window with the contract
+   formed and unresolved on that chain, a proof goes out (so the fairness hypothesis is
+   about the network, not about the host) *)
+Theorem v1_host_broadcasts_in_window : forall p tr w,
+  p_benefit p = true -> p_held p = true ->
+  run p (init_world p) tr = Some w ->
+  formed_on (chain w) = true -> resolved_on (chain w) = false ->
+  (p_ws p <= tip (chain w))%N -> (tip (chain w) < p_we p)%N ->
+  exists rest, sent w = true :: rest.
+Proof.
+  intros p tr w Hb Hh Hrun Hf Hr Hws Hwe.
+  destruct (run_inv p tr _ w (inv_init p) Hrun) as [_ [_ Hs]].
+  rewrite Hs. destruct (chain w) as [|b r] eqn:Ech; [discriminate Hf|].
+  cbn [sent_of]. exists (sent_of p r). f_equal.
+  unfold would_broadcast. rewrite Hf, Hr, Hb, Hh.
+  replace (p_ws p <=? tip (b :: r))%N with true by lia.
+  replace (tip (b :: r) <? p_we p)%N with true by lia. reflexivity.
+Qed.
+
+(* the hypotheses are needed: without the fairness clause a schedule exists in which the
+   host broadcasts in the window and the contract still fails *)
+Definition p_demo : params :=
+  {| p_ws := 3; p_we := 5; p_neg := 0; p_rev0 := 1; p_rb := 18; p_benefit := true; p_held := true |}.
+Definition blk0 : blk := {| b_form := false; b_rev := None; b_proof := false; b_missed := false |}.
+Definition blk_form : blk := {| b_form := true; b_rev := None; b_proof := false; b_missed := false |}.
+Definition blk_proof : blk := {| b_form := false; b_rev := None; b_proof := true; b_missed := false |}.
+Definition demo_schedule : list estep :=
+  [Mine blk_form; Mine blk0; Mine blk0; Mine blk_proof; Revert; Mine blk0; Mine blk_proof; Mine blk0].
